@@ -407,6 +407,14 @@ impl Transport for LocalTransport {
                     bytes_written
                 );
 
+                // Preserve modification time (same as the full-copy path)
+                if let Ok(mtime) = source_meta.modified() {
+                    let _ = filetime::set_file_mtime(
+                        &dest,
+                        filetime::FileTime::from_system_time(mtime),
+                    );
+                }
+
                 return Ok(TransferResult::new(bytes_written));
             }
 
@@ -441,6 +449,14 @@ impl Transport for LocalTransport {
                             path: source.clone(),
                             source: e,
                         })?;
+
+                        // Preserve modification time (same as the full-copy path)
+                        if let Ok(mtime) = source_meta.modified() {
+                            let _ = filetime::set_file_mtime(
+                                &dest,
+                                filetime::FileTime::from_system_time(mtime),
+                            );
+                        }
 
                         return Ok(TransferResult::new(bytes_written));
                     }
@@ -781,6 +797,15 @@ impl Transport for LocalTransport {
             } else {
                 0.0
             };
+
+            // Preserve modification time on the temp file so that the rename
+            // publishes content and mtime together
+            if let Ok(mtime) = source_meta.modified() {
+                let _ = filetime::set_file_mtime(
+                    &temp_dest,
+                    filetime::FileTime::from_system_time(mtime),
+                );
+            }
 
             // Atomic rename
             fs::rename(&temp_dest, &dest).map_err(|e| SyncError::CopyError {
